@@ -449,6 +449,14 @@ where
     }
 
     async fn read_root(file: &File, root_offset: u64) -> Result<BytesMut> {
+        // The offset comes from the file: in an incomplete (or overwritten) index file it may point anywhere
+        if root_offset > file.size() {
+            let param = ValidationErrorKind::IndexNotWritten;
+            return Err(Error::validation(
+                param,
+                format!("Index is incomplete: tree offset {} is beyond the file size {}", root_offset, file.size()),
+            ).into());
+        }
         let buf_size = std::cmp::min((file.size() - root_offset) as usize, BLOCK_SIZE);
         let mut buf = BytesMut::zeroed(BLOCK_SIZE);
         buf.resize(buf_size, 0);
